@@ -1,7 +1,7 @@
 """C14 - hex formatting (PARTIAL claim: capacity / clamp / coverage / case-selection obligations of hex.rs)."""
 
 from ..core import PROVED, REFUTED, UNKNOWN, MISSING
-from ..poly import Poly, prove
+from ..poly import Poly, prove, mk_min
 from ..rules import vstr, fstr, payload_calls
 from ..tys import tstr
 
@@ -81,11 +81,14 @@ def check_generic_hex(ctx, cfg):
                         g = g and (none or ge_strict)
                 g = g and n_edges > 0
                 dets.append("arm yielding 2N is entered only when the precision is absent or >= 2N (%d edges): %s" % (n_edges, g))
+            elif v == mk_min(pv, N * Poly.const(2)):
+                g = True
+                dets.append("arm yielding min(precision, 2N) directly")
             else:
                 g = False
                 dets.append("unexpected budget value %r" % (v,))
             good = good and g
-        has_p = any(s["val"][1] == pv for s in sites)
+        has_p = any(s["val"][1] == pv or s["val"][1] == mk_min(pv, N * Poly.const(2)) for s in sites)
         has_2n = any(s["val"][1] == N * Poly.const(2) for s in sites)
         ok1 = good and has_p and has_2n
         det1 = "; ".join(dets)
